@@ -198,20 +198,20 @@ theorem binop_agrees_exact (op : BinOp) {t1 t2 t : CType} {v1 v2 v : Int}
   cases op <;> simp only [Bool.and_eq_true] at hx <;> simp only at h
   case add =>
     rw [conv_of_inRange hx.1.1, conv_of_inRange hx.1.2] at h
-    rw [arith_eq hx.2 h]; rfl
+    rw [arith_eq hx.2 h, applyBin_def]; rfl
   case sub =>
     rw [conv_of_inRange hx.1.1, conv_of_inRange hx.1.2] at h
-    rw [arith_eq hx.2 h]; rfl
+    rw [arith_eq hx.2 h, applyBin_def]; rfl
   case mul =>
     rw [conv_of_inRange hx.1.1, conv_of_inRange hx.1.2] at h
-    rw [arith_eq hx.2 h]; rfl
+    rw [arith_eq hx.2 h, applyBin_def]; rfl
   case div =>
     rw [conv_of_inRange hx.1.1, conv_of_inRange hx.1.2] at h
     by_cases hb : v2 = 0
     · simp [hb] at h
     · simp only [hb, if_false] at h
       rw [arith_eq hx.2 h]
-      exact cDiv_eq_tdiv _ _ hb
+      rw [applyBin_def]; exact cDivSpec_eq_tdiv _ _ hb
   case mod =>
     rw [conv_of_inRange hx.1.1, conv_of_inRange hx.1.2] at h
     by_cases hb : v2 = 0
@@ -229,14 +229,14 @@ theorem binop_agrees_exact (op : BinOp) {t1 t2 t : CType} {v1 v2 v : Int}
       · cases h
       · rw [arith_eq hx h]
         have : ¬ v2 < 0 := by omega
-        simp [applyBin, this]
+        simp [applyBin_def, applyBinSpec, this]
   case shr =>
     split at h
     · cases h
     · rename_i hc
       rw [arith_eq hx h]
       have : ¬ v2 < 0 := by omega
-      simp [applyBin, this]
+      simp [applyBin_def, applyBinSpec, this]
   case band =>
     rw [conv_of_inRange hx.1, conv_of_inRange hx.2, bitwise_and_any hx.1 hx.2] at h
     have hr := arith_inRange h
@@ -244,7 +244,7 @@ theorem binop_agrees_exact (op : BinOp) {t1 t2 t : CType} {v1 v2 v : Int}
     cases hs : (uac t1 t2).signed with
     | true =>
       obtain ⟨_, rfl, _⟩ := arith_signed' hs h
-      simp [applyBin]
+      simp [applyBin_def, applyBinSpec]
     | false =>
       obtain ⟨m, hm, hmlt⟩ := nat_of_unsigned hs hx.1
       obtain ⟨n, hn, hnlt⟩ := nat_of_unsigned hs hx.2
@@ -255,13 +255,13 @@ theorem binop_agrees_exact (op : BinOp) {t1 t2 t : CType} {v1 v2 v : Int}
         have h2 : ((2 ^ (uac t1 t2).width : Nat) : Int) = (2 : Int) ^ (uac t1 t2).width := by simp
         have := Nat.and_lt_two_pow m hnlt
         rw [← h2]; omega
-      rw [arith_eq hin h]; simp [applyBin]
+      rw [arith_eq hin h]; simp [applyBin_def, applyBinSpec]
   case bor =>
     rw [conv_of_inRange hx.1, conv_of_inRange hx.2, bitwise_or_any hx.1 hx.2] at h
     cases hs : (uac t1 t2).signed with
     | true =>
       obtain ⟨_, rfl, _⟩ := arith_signed' hs h
-      simp [applyBin]
+      simp [applyBin_def, applyBinSpec]
     | false =>
       obtain ⟨m, hm, hmlt⟩ := nat_of_unsigned hs hx.1
       obtain ⟨n, hn, hnlt⟩ := nat_of_unsigned hs hx.2
@@ -272,13 +272,13 @@ theorem binop_agrees_exact (op : BinOp) {t1 t2 t : CType} {v1 v2 v : Int}
         have h2 : ((2 ^ (uac t1 t2).width : Nat) : Int) = (2 : Int) ^ (uac t1 t2).width := by simp
         have := Nat.or_lt_two_pow hmlt hnlt
         rw [← h2]; omega
-      rw [arith_eq hin h]; simp [applyBin]
+      rw [arith_eq hin h]; simp [applyBin_def, applyBinSpec]
   case bxor =>
     rw [conv_of_inRange hx.1, conv_of_inRange hx.2, bitwise_xor_any hx.1 hx.2] at h
     cases hs : (uac t1 t2).signed with
     | true =>
       obtain ⟨_, rfl, _⟩ := arith_signed' hs h
-      simp [applyBin]
+      simp [applyBin_def, applyBinSpec]
     | false =>
       obtain ⟨m, hm, hmlt⟩ := nat_of_unsigned hs hx.1
       obtain ⟨n, hn, hnlt⟩ := nat_of_unsigned hs hx.2
@@ -289,7 +289,7 @@ theorem binop_agrees_exact (op : BinOp) {t1 t2 t : CType} {v1 v2 v : Int}
         have h2 : ((2 ^ (uac t1 t2).width : Nat) : Int) = (2 : Int) ^ (uac t1 t2).width := by simp
         have := Nat.xor_lt_two_pow hmlt hnlt
         rw [← h2]; omega
-      rw [arith_eq hin h]; simp [applyBin]
+      rw [arith_eq hin h]; simp [applyBin_def, applyBinSpec]
 
 theorem eval_agrees_nowrap_aux (cenv : Env) (penv : ConstExpr.Env)
     (hag : EnvAgree cenv penv) (e : CExpr) :
